@@ -52,6 +52,10 @@ CHECKS = {
    technique="explicit-state exploration of registration histories (all call sequences <= 4/5 over 25 registry calls, real builders in lock-step with a registry model, probe parses after every step) + exhaustive operator-string enumeration per precedence level against a precedence-climbing reference and a built-in-substitution oracle",
    text="Every registration history up to the bound is replayed on fresh real builders in lock-step with the registry model (ids, refusals), and after every step a probe set is parsed and compared with what the precedence-climbing reference predicts for the model's operator table - which also shows that a refused registration left the parser unchanged. For every level 1..13 every flat operator string of the tier (all built-in neighbours on both sides, every single prefix/suffix decoration) is parsed with plugin operators and compared with the reference grouping and with the built-in operator of the same level. An off-by-one in a right-operand level or a registration written to the wrong table shows at one specific level/neighbour/history; all are enumerated.",
    note="trusted: R-prec (xmc/ref/rprec.go, 250 lines) and the registry model in props/c05.go; postfix-vs-infix role sharing on one token is outside the model"),
+ "C15": dict(cat="exploration", sec="4 C15",
+   technique="exhaustive decoration enumeration: every statement boundary of every skeleton program (statement families, nesting chains <= 2/3) x every decoration of a 32-entry alphabet (trailing / own-line comments with 10 texts, blank-line runs, mixed sequences), singly and pairwise; independent tokenizer compares comment lists, anchors and blank-line separation of source and pretty output; compact output compared with the comment-free program",
+   text="Every boundary of every enumerated skeleton receives every decoration of the alphabet (and every pair of boundaries a reduced set); the real lexer, parser and printers run on each decorated program and an independent tokenizer reads comments back from the pretty output: same texts, same order, once each, in front of the same token, blank lines between siblings kept, compact output unchanged and comment-free, comment content neutral. Trivia is attached to whichever token follows, so each boundary kind (first in block, between siblings, before a closing brace, before end of input, after an opening brace) x each owner node type is a separate code path; the enumeration visits all of them.",
+   note="trusted: R-tok comment scan (xmc/ref/rtok.go); comments compared modulo trailing white space; one-statement-per-line layouts"),
 }
 NA_REASON = {}
 def main():
